@@ -563,7 +563,7 @@ def std_caps():
 
 
 # ---- structured NLRI of the families whose encoders the model covers (Flowspec x4, RTC, EVPN, SR Policy x2)
-STRUCT_FAMILIES = (W.IPV4_FS, W.IPV6_FS, W.IPV4_FSVPN, W.IPV6_FSVPN, W.RTC, W.EVPN, W.IPV4_SRP, W.IPV6_SRP, W.IPV4_MUP, W.IPV6_MUP)
+STRUCT_FAMILIES = (W.IPV4_FS, W.IPV6_FS, W.IPV4_FSVPN, W.IPV6_FSVPN, W.RTC, W.EVPN, W.IPV4_SRP, W.IPV6_SRP, W.IPV4_MUP, W.IPV6_MUP, W.LS)
 RDS = [[0, 0, 253, 232, 0, 0, 0, 100], [0, 1, 192, 0, 2, 1, 0, 7], [0, 2, 0, 1, 0, 0, 0, 9]]
 V6A = [32, 1, 13, 184, 0, 1, 0, 2, 0, 3, 0, 4, 0, 5, 0, 6]
 OPVALS = [0, 1, 255, 256, 65535, 65536, 4294967295, 4294967296, 2 ** 64 - 1]
@@ -623,7 +623,52 @@ def mup_route(f, i, k):
     teid -= teid % (256 ** (4 - tb))
     return ['mup', 4, rd, 8 * w + [0, 8, 16, 24, 32][tb] - ([0, 3, 0, 7, 0][i % 5] if tb else 0), ep, teid]
 
+def ls_node_desc(i, shape):
+    b = []
+    if shape & 1: b.append([512, W.be32(65000 + i)])
+    if shape & 2: b.append([513, W.be32(i)])
+    if shape & 4: b.append([514, W.be32(i % 7)])
+    if shape & 8: b.append([515, [(i + k) % 256 for k in range([4, 6, 7, 8][i % 4])]])
+    if shape & 16: b.append([516, [10, 0, (i >> 8) & 255, i & 255]])
+    if shape & 32: b.append([517, W.be32(64512 + i % 100)])
+    return b
+
+def ls_struct(kind, i):
+    """a BGP-LS NLRI value: kind 0 node, 1 link, 2 IPv4 prefix, 3 IPv6 prefix, 4 SRv6 SID, 5 unknown type; [i] varies the
+    descriptors present and the TLV value lengths (0 / 1 / 255 / 256 for unknown TLVs)"""
+    proto, ident = 1 + i % 7, [i, 2 ** 32 + i, 2 ** 64 - 1][i % 3]
+    local = ls_node_desc(i, [1, 9, 15, 63, 8, 0][i % 6])
+    if kind == 0: return ['ls', 1, proto, ident, local]
+    if kind == 1:
+        sel = [1, 2 | 4, 8 | 16, 1 | 32, 63, 0, 64, 128][i % 8]
+        link = []
+        if sel & 1: link.append([258, W.be32(i) + W.be32(i + 1)])
+        if sel & 2: link.append([259, [10, 0, 0, i % 256]])
+        if sel & 4: link.append([260, [10, 0, 1, i % 256]])
+        if sel & 8: link.append([261, [32, 1] + [0] * 13 + [i % 256]])
+        if sel & 16: link.append([262, [32, 1] + [0] * 13 + [(i + 1) % 256]])
+        if sel & 32: link.append([263, sum([W.be16((i + k) % 4096) for k in range(i % 3)], [])])
+        if sel & 64: link.append([9000 + i % 50, [(i + k) % 256 for k in range([0, 1, 255, 256][i % 4])]])
+        if sel & 128: link.append([258, [1, 2, 3]])      # a known type with an unusual length stays opaque
+        return ['ls', 2, proto, ident, local, ls_node_desc(i + 1, [9, 63, 1][i % 3]), link]
+    if kind in (2, 3):
+        sel = [4, 1 | 4, 2 | 4, 7, 4 | 8][i % 5]
+        pfx = []
+        if sel & 1: pfx.append([263, W.be16(i % 4096)])
+        if sel & 2: pfx.append([264, [1 + i % 6]])
+        if sel & 4:
+            maxb = 32 if kind == 2 else 128
+            pl = [0, 1, 8, 24, maxb - 1, maxb][i % 6]
+            addr = ([10, 1, 2, 3] if kind == 2 else [32, 1, 13, 184] + [(i + k) % 256 for k in range(12)])[:(pl + 7) // 8]
+            pfx.append([265, [pl] + addr])
+        if sel & 8: pfx.append([9100, [i % 256]])
+        return ['ls', 3 if kind == 2 else 4, proto, ident, local, pfx]
+    if kind == 4:
+        return ['ls', 6, proto, ident, local, [[(i + k) % 4096, [32, 1, 13, 184] + [(i + k + j) % 256 for j in range(12)]] for k in range(1 + i % 2)]]
+    return ['ls', 0, [0, 5, 7, 900, 65535, 1][i % 6], [(i + 3 * k) % 256 for k in range([0, 5, 8, 30, 300, 4][i % 6])]]
+
 def struct_entry(rng, f, i):
+    if f == W.LS: return ls_struct(i % 6, i)
     if f in (W.IPV4_MUP, W.IPV6_MUP): return mup_route(f, i, 1 + i % 4)
     if f in (W.IPV4_FS, W.IPV6_FS, W.IPV4_FSVPN, W.IPV6_FSVPN): return fs_rule(rng, f, i)
     if f == W.RTC: return ['rtc', i % 3, [0, 65000 + i, 4294967295][i % 3] if i % 3 else 0, (RDS[i % 3][:2] + W.be16(65000) + W.be32(i)) if i % 3 == 2 else []]
@@ -631,7 +676,7 @@ def struct_entry(rng, f, i):
     if f == W.IPV4_SRP: return ['srp', i, 100 + i % 3, [10] + W.be32(i)[1:]]
     return ['srp', i, [0, 4294967295][i % 2], V6A[:12] + W.be32(i)]
 
-STRUCT_BULK = {W.EVPN: (9, 13), W.IPV4_FS: (10,), W.IPV6_FSVPN: (14,), W.RTC: (11,), W.IPV4_SRP: (12,), W.IPV4_MUP: (15,)}
+STRUCT_BULK = {W.EVPN: (9, 13), W.IPV4_FS: (10,), W.IPV6_FSVPN: (14,), W.RTC: (11,), W.IPV4_SRP: (12,), W.IPV4_MUP: (15,), W.LS: (16,)}
 
 def struct_entries(rng, f, n):
     if not n:
@@ -712,6 +757,11 @@ def struct_audit_cases(rng):
             add(l, r, ['unreach', W.LS, es], 'ls_every_nlri_type')
         l, r = caps_pair([W.LS, W.IPV4], lmode=3, rmode=3, ext=(False, False))
         add(l, r, ['reach', W.LS, NH6, A0, [['rawbulk', W.LS, kind, 60, 100]]], 'ls_every_nlri_type')
+    # BGP-LS as values: every NLRI type x every descriptor, unknown TLV lengths 0 / 1 / 255 / 256, identifiers past 32 bits
+    for kind in range(6):
+        for i in range(0, 48):
+            both(W.LS, [[0, ls_struct(kind, i)]], 'ls_struct_every_type')
+        both(W.LS, [[j + 1, ls_struct(kind, j)] for j in range(24)], 'ls_struct_every_type', ap=3, ext=(False, False))
     # MUP: every route type x address family, prefix length / TEID length edges, optional source address
     for f in (W.IPV4_MUP, W.IPV6_MUP):
         for k in range(1, 5):
@@ -719,7 +769,7 @@ def struct_audit_cases(rng):
                 both(f, [[0, mup_route(f, i, k)]], 'mup_every_type')
             both(f, [[j + 1, mup_route(f, j, k)] for j in range(10)], 'mup_every_type', ap=3, ext=(False, False))
     # splitting: several frames of structured entries at 4096
-    for f, kind in ((W.EVPN, 9), (W.EVPN, 13), (W.IPV4_FS, 10), (W.IPV6_FSVPN, 14), (W.RTC, 11), (W.IPV4_SRP, 12), (W.IPV4_MUP, 15)):
+    for f, kind in ((W.EVPN, 9), (W.EVPN, 13), (W.IPV4_FS, 10), (W.IPV6_FSVPN, 14), (W.RTC, 11), (W.IPV4_SRP, 12), (W.IPV4_MUP, 15), (W.LS, 16)):
         for ap in (0, 3):
             l, r = caps_pair([f, W.IPV4], lmode=ap, rmode=ap, ext=(False, False))
             nh = None if f in FS else NH4
